@@ -3,7 +3,7 @@ from __future__ import annotations
 
 from hypothesis import strategies as st
 
-from harness import brokerops, vclock
+from harness import brokerops, names, vclock
 from harness.core import Check, Outcome, SubCheck
 
 OWNED = {
@@ -104,7 +104,12 @@ def history(draw, broker):
             ops.append({"op": "pause", "c": pc})
             for _ in range(draw(st.integers(0, 2))):
                 ops.append(draw(st.one_of(enq_op(queues), advance)))
-            ops.append({"op": "unpause", "c": pc})
+            if draw(st.integers(0, 3)) == 0:
+                # ... or never resumed: the consumer is finished while paused (whatever it was sent meanwhile goes back)
+                ops.append({"op": "advance", "dt": draw(st.sampled_from([0.01, 0.5]))})
+                ops.append({"op": "finish", "c": pc})
+            else:
+                ops.append({"op": "unpause", "c": pc})
         if draw(st.integers(0, 5)) == 0:
             # several consume() calls in flight at once (two clients racing for the same messages), then collected
             for c in draw(st.lists(st.integers(0, 3), min_size=2, max_size=3, unique=True)):
@@ -112,6 +117,12 @@ def history(draw, broker):
             ops.append({"op": "collect", "patience": draw(st.sampled_from([0.05, 0.5]))})
             ops.append(draw(terminal))
     case = {"broker": broker, "seed": draw(st.integers(0, 2**16)), "ops": ops}
+    if draw(st.integers(0, 3)) == 0:
+        names.rename_history(case, draw(st.sampled_from(names.STYLES)))  # legal but unusual queue / topic / message names
+    if draw(st.integers(0, 5)) == 0:
+        case["log"] = "DEBUG"  # host application logging at DEBUG: the library's log lines are all formatted
+    if draw(st.integers(0, 5)) == 0:
+        case["tz"] = draw(st.sampled_from(vclock.zones(3)))
     if broker != "mem":
         lat = st.lists(st.sampled_from([0.0, 0.0, 0.001, 0.002, 0.005]), max_size=25)
         case["lat"] = {"p0": draw(lat), "c0": draw(lat), "c1": draw(lat)}
